@@ -73,6 +73,9 @@ func c11(tier string) []*explore.Scenario {
 			}
 		}
 	}
+	for _, replies := range []int{1, 2, 3} {
+		out = append(out, c11WriteErrAfterDelivery(replies, bound))
+	}
 	// a caller that simply stops reading (no cancel) with responses queued
 	for _, unread := range []int{1, 2, 3, 4} {
 		out = append(out, c11One(abandon{"caller-stops", unread, 0, false, false}, 64, 0, 0))
@@ -192,6 +195,69 @@ func c11One(a abandon, capn, others, bound int) *explore.Scenario {
 			if a.mode == "handler-returns" && !r.CDone {
 				vsched.Fail(fam+"|own-caller-hang", "the caller of the abandoned stream never got its result: %s", r.Summary())
 			}
+		},
+	}
+}
+
+// c11WriteErrAfterDelivery: a unary call's request reaches the peer, but the
+// transport's Write reports an error to the caller (a timeout while waiting for
+// an acknowledgement, say), so the caller abandons the call; the peer answers
+// it anyway, `replies` times. The connection must not wedge: later calls complete.
+func c11WriteErrAfterDelivery(replies, bound int) *explore.Scenario {
+	fam := "C11/write-error"
+	return &explore.Scenario{
+		Name: fmt.Sprintf("C11/write-error-after-delivery/replies=%d", replies), Family: fam, Prop: "C11", Bound: bound, Horizon: time.Hour,
+		Run: func() {
+			w := env.NewWorld()
+			d := env.NewDirect(w, env.DirectOpts{Pipe: env.PipeOpts{Cap: 64}, NoServer: true})
+			// the scripted peer: answers request id N `replies` times (the first request), once afterwards
+			first := true
+			vsched.GoNamed("peer", func() {
+				for {
+					rpc, err := d.Pipe.B.Read(context.Background())
+					if err != nil {
+						return
+					}
+					n := 1
+					if first {
+						n, first = replies, false
+					}
+					for i := 0; i < n; i++ {
+						d.Pipe.B.Inject(env.RespUnary(rpc.GetId(), "R:late"))
+					}
+				}
+			})
+			vsched.Settle()
+			d.Pipe.A.DeliverThenFailAt = d.Pipe.A.NWritten
+			vsched.Explore(true)
+			r := w.Rec("ab", "Unary")
+			vsched.GoNamed("caller-ab", func() { w.CallUnary(d.CC, context.Background(), r, "x") })
+			vsched.Quiesce()
+			if !r.CDone {
+				vsched.Fail(fam+"|own-caller-hang", "the call whose request write reported an error never returned; threads: %s", threadList())
+			}
+			p1 := w.Rec("p1", "Unary")
+			vsched.GoNamed("probe-p1", func() { w.CallUnary(d.CC, context.Background(), p1, "x") })
+			vsched.Quiesce()
+			p2 := w.Rec("p2", "Unary")
+			vsched.GoNamed("probe-p2", func() {
+				ctx, cancel := context.WithTimeout(context.Background(), time.Second)
+				defer cancel()
+				w.CallUnary(d.CC, ctx, p2, "x")
+			})
+			vsched.QuiesceTime()
+			vsched.Obs("replies=%d: ab done=%v err=%s; p1 done=%v err=%s; p2 done=%v", replies, r.CDone, env.ErrStr(r.CErr), p1.CDone, env.ErrStr(p1.CErr), p2.CDone)
+			if !p1.CDone {
+				vsched.Fail(fam+"|rpc-hang", "a call abandoned because its request write reported an error was answered %d times by the peer; a later unary call never returned; threads: %s", replies, threadList())
+			} else if p1.CErr != nil || p1.CReply != "R:late" {
+				vsched.Fail(fam+"|rpc-wrong", "a later unary call returned err=%v reply=%q", p1.CErr, p1.CReply)
+			}
+			if !p2.CDone {
+				vsched.Fail(fam+"|deadline-rpc-hang", "a later unary call with a 1s deadline never returned")
+			}
+			d.Pipe.A.Break()
+			d.Pipe.B.Break()
+			vsched.Quiesce()
 		},
 	}
 }
